@@ -8,6 +8,13 @@ TRUSTED_COMMON = [
 ]
 
 FAMILY_ASSUMPTIONS = {
+    "distances": [
+        "explicit small states: matrices of exactly NB objects (one job per size), lists of <= ND structures, exact-size heap arrays; objects are harness objects with a valid type (0 <= type < HWLOC_OBJ_TYPE_MAX) and subtype NULL / \"NVSwitch\" / any string <= 9 chars",
+        "the object look-ups of refresh_one (hwloc_get_pu_obj_by_os_index, hwloc_get_numanode_obj_by_os_index, hwloc_get_obj_by_type_and_gp_index) and hwloc_get_depth_type are table stubs (/verif/include/distances.model.h): distances.c is verified against 'a function of (type,index)'; the real look-ups walk the tree (C09, not claimed)",
+        "hwloc__reconnect is a no-op stub; grouping (hwloc__groups_by_distances) is switched off in the add harness; ids of committed structures are assumed pairwise distinct in release_remove (they come from one counter)",
+        "malloc may fail; strcmp/strdup/memcpy/free as modelled by cbmc; LINKS is decided for bounded values only (64-bit division)",
+        "not decided: grouping, restrict/dup/XML/shmem interleavings through the real tree, hwloc_distances_obj_* inline helpers",
+    ],
     "nolibxml": ["strspn model (/verif/stubs/strspn.h); cbmc's strchr/strcmp/strncmp/strlen models; the buffer is BL arbitrary bytes + NUL allocated with its exact size; next_attr assumes the invariant find_child is shown to establish (attribute text ends before the final byte)"],
     "base64": ["C-locale isspace (driver), cbmc's strchr model; exact-size malloc'ed buffers"],
     "printers": ["snprintf C99 contract stub (pieces <= 24 chars); explicit bitmap object with NW stored words; guarded arena for the destination"],
@@ -100,6 +107,8 @@ def write(here, prop, tier, seed, jobs, results, violations, known_hits, undecid
                  "unwinding_assertions": r.get("n_unwind", 0), "unwind": r.get("unwind"),
                  "canary": r.get("canary"), "status": r["status"], "solver_s": round(r.get("seconds", 0.0), 1),
                  "replaced_by_contract": r.get("replaced", []), "MAXW": r.get("maxw"), "note": r.get("note", "")}
+        if r.get("removed_bodies"):
+            entry["callee_bodies_removed"] = r["removed_bodies"]
         if r.get("messages_ignoring"):
             entry["ignored_by_backend"] = r["messages_ignoring"][:5]
         if j.label == "bounded":
@@ -118,6 +127,9 @@ def write(here, prop, tier, seed, jobs, results, violations, known_hits, undecid
     assumptions = []
     for f in sorted(x for x in families if x):
         assumptions += FAMILY_ASSUMPTIONS.get(f, [])
+    rb = sorted({fn for j in jobs for fn in getattr(j, "remove_bodies", [])})
+    if rb:
+        assumptions.append("callee bodies removed in plain runs (goto-instrument --remove-function-body: result nondeterministic, NO side effect assumed): " + ", ".join(rb))
     assumed = scan_assumptions(here, None)
     if assumed:
         assumptions.append("__CPROVER_assume occurrences in /verif (mechanical scan): " + "; ".join(assumed[:40]))
@@ -152,6 +164,7 @@ def write(here, prop, tier, seed, jobs, results, violations, known_hits, undecid
         "wall_s": round(wall, 1),
         "violations": len(violations),
     }
-    os.makedirs(os.path.join(here, "evidence"), exist_ok=True)
-    with open(os.path.join(here, "evidence", prop + suffix + ".json"), "w") as f:
+    evdir = os.environ.get("VERIF_EVIDENCE_DIR") or os.path.join(here, "evidence")
+    os.makedirs(evdir, exist_ok=True)
+    with open(os.path.join(evdir, prop + suffix + ".json"), "w") as f:
         json.dump(ev, f, indent=1)
